@@ -3,8 +3,8 @@
    Print Assumptions follows every theorem.  run/stuck: the path semantics of lock skeletons. The skeleton of every mutex-touching function of /repo is regenerated on each run and must satisfy `balanced` (coq/gentie/Tie_locks.v); balanced_sound then gives the property for every path, including every error return. *)
 
 From Coq Require Import List NArith Bool Sorting Permutation.
-From Ice Require Import Base Lock Spec Dict SegmentOps.
-From IceProofs Require Lock_Proofs SegmentOps_Proofs.
+From Ice Require Import Base Lock Spec Dict SegmentOps Chunk DocValues Postings Varint Faults.
+From IceProofs Require Lock_Proofs SegmentOps_Proofs Faults_Proofs.
 Import ListNotations.
 Open Scope N_scope.
 
@@ -94,3 +94,127 @@ Theorem dictionary_prefix_blocks :
     (dictionary_trace F loads_ok ok true ds_init calls) = [false; false].
 Proof. exact @SegmentOps_Proofs.dictionary_prefix_blocks. Qed.
 Print Assumptions dictionary_prefix_blocks.
+
+(* the doc-value reader under an ARBITRARY storage oracle (the load overwrites the cached header entry by entry; a failed read returns with the state as it is): every visit of every finite sequence returns an error or exactly the fault-free answer; never a panic, never another answer *)
+Theorem dvf_admissible :
+    forall (field : bytes) (numDocs : N) (es : list (N * list bytes)) (ok : oracle) 
+    (k0 : nat) (visits : list N),
+    numDocs <= two64 ->
+    DocValues_Proofs.wf_entries numDocs es ->
+    Forall (fun n : N => n < numDocs) visits ->
+    Forall2
+    (fun (n : N) (o : outcome (list (bytes * bytes))) =>
+    o = OErr \/ o = OOk (DocValues_Proofs.spec_dv field es n)) visits
+    (dvf_run ok
+    (dvf_open (dv_chunks (DocValues_Proofs.nchunks_for numDocs) (DocValues_Proofs.enc_entries es)) k0)
+    field visits).
+Proof. exact @Faults_Proofs.dvf_admissible. Qed.
+Print Assumptions dvf_admissible.
+
+(* the same with sort.Search as Go executes it (binary search) *)
+Theorem dvf_admissible_bin :
+    forall (field : bytes) (numDocs : N) (es : list (N * list bytes)) (ok : oracle) 
+    (k0 : nat) (visits : list N),
+    numDocs <= two64 ->
+    DocValues_Proofs.wf_entries numDocs es ->
+    Forall (fun n : N => n < numDocs) visits ->
+    Forall2
+    (fun (n : N) (o : outcome (list (bytes * bytes))) =>
+    o = OErr \/ o = OOk (DocValues_Proofs.spec_dv field es n)) visits
+    (dvf_run_with (dvf_visit_bin ok)
+    (dvf_open (dv_chunks (DocValues_Proofs.nchunks_for numDocs) (DocValues_Proofs.enc_entries es)) k0)
+    field visits).
+Proof. exact @Faults_Proofs.dvf_admissible_bin. Qed.
+Print Assumptions dvf_admissible_bin.
+
+(* regression of the method (finding D15): the pre-fix reader, with chunk 1 cached and the load of chunk 0 failing inside its header, answers a chunk-1 document with other documents' bytes, without an error, under a storage that keeps failing *)
+Theorem dvf_prefix_refuted :
+    exists
+    (ok : oracle) (field : bytes) (numDocs : N) (es : list (N * list bytes)) 
+    (n : N) (wrong : list (bytes * bytes)),
+    monotone ok /\
+    numDocs <= two64 /\
+    DocValues_Proofs.wf_entries numDocs es /\
+    n < numDocs /\
+    dvf_run_prefix ok
+    (dvf_open (dv_chunks (DocValues_Proofs.nchunks_for numDocs) (DocValues_Proofs.enc_entries es)) 0)
+    field [1024; 0; n] = [OOk (DocValues_Proofs.spec_dv field es 1024); OErr; OOk wrong] /\
+    wrong <> [] /\
+    wrong <> DocValues_Proofs.spec_dv field es n /\
+    dvf_run ok
+    (dvf_open (dv_chunks (DocValues_Proofs.nchunks_for numDocs) (DocValues_Proofs.enc_entries es)) 0)
+    field [1024; 0; n] = [OOk (DocValues_Proofs.spec_dv field es 1024); OErr; OErr].
+Proof. exact @Faults_Proofs.dvf_prefix_refuted. Qed.
+Print Assumptions dvf_prefix_refuted.
+
+Theorem dvf_prefix_panics :
+    dvf_run_prefix (fails_from 9)
+    (dvf_open
+    (dv_chunks (DocValues_Proofs.nchunks_for 1026) (DocValues_Proofs.enc_entries Faults_Proofs.y_es))
+    0) fx_field [1024; 0; 1025] =
+    [OOk (DocValues_Proofs.spec_dv fx_field Faults_Proofs.y_es 1024); OErr; OPanic] /\
+    dvf_run (fails_from 9)
+    (dvf_open
+    (dv_chunks (DocValues_Proofs.nchunks_for 1026) (DocValues_Proofs.enc_entries Faults_Proofs.y_es))
+    0) fx_field [1024; 0; 1025] =
+    [OOk (DocValues_Proofs.spec_dv fx_field Faults_Proofs.y_es 1024); OErr; OErr].
+Proof. exact @Faults_Proofs.dvf_prefix_panics. Qed.
+Print Assumptions dvf_prefix_panics.
+
+(* the postings iterator: after any failed chunk load the next call reloads instead of trusting a half-loaded pair of readers *)
+Theorem itf_retry_safe :
+    forall (ok : oracle) (s : ItF) (c : N) (s1 : ItF),
+    itf_loadChunk ok s c = FErr s1 ->
+    it_fn (if_it s) = true ->
+    need_load (if_it s) c = true ->
+    need_load (if_it s1) c = true /\
+    it_cur (if_it s1) = it_cur (if_it s) /\
+    it_actual (if_it s1) = it_actual (if_it s) /\
+    it_all (if_it s1) = it_all (if_it s) /\ it_lr (if_it s1) = it_lr (if_it s).
+Proof. exact @Faults_Proofs.itf_retry_safe. Qed.
+Print Assumptions itf_retry_safe.
+
+(* under a storage that keeps failing once it has failed: a prefix of the specified postings, then only errors (or the end); never a panic *)
+Theorem itf_monotone_admissible :
+    forall (fields : list bytes) (ps : list EPosting) (cs : N) (total : nat) (inclLocs : bool)
+    (old : option It) (ok : oracle) (k0 n : nat),
+    Iterator_Proofs.wf_postings (length fields) ps ->
+    0 < cs ->
+    (forall p : EPosting, In p ps -> (N.to_nat (ep_doc p / cs) < total)%nat) ->
+    monotone ok ->
+    let spec :=
+    Iterator_Proofs.spec_out true inclLocs (map (Iterator_Proofs.resolve_posting fields) ps)
+    (repeat INext n) in
+    let run :=
+    itf_run ok {| if_it := it_init (encode_gen cs total ps) None true inclLocs fields old; if_k := k0 |}
+    (repeat INext n) in
+    exists (j : nat) (tail : list (outcome (option APosting))),
+    run = map OOk (firstn j spec) ++ tail /\ Forall Faults_Proofs.quiet tail /\ length run = n.
+Proof. exact @Faults_Proofs.itf_monotone_admissible. Qed.
+Print Assumptions itf_monotone_admissible.
+
+(* regression of the method (finding D14): without forgetting the freq/norm chunk the second Next panics *)
+Theorem itf_prefix_refuted :
+    exists (ok : oracle) (i : It),
+    monotone ok /\
+    ok 0%nat = true /\
+    ok 1%nat = false /\
+    (exists s1 : ItF,
+    itf_loadChunk_prefix ok {| if_it := i; if_k := 0 |} 0 = FErr s1 /\ need_load (if_it s1) 0 = false) /\
+    itf_run_prefix ok {| if_it := i; if_k := 0 |} [INext; INext] = [OErr; OPanic] /\
+    itf_run ok {| if_it := i; if_k := 0 |} [INext; INext; INext; INext] = [OErr; OErr; OErr; OOk None].
+Proof. exact @Faults_Proofs.itf_prefix_refuted. Qed.
+Print Assumptions itf_prefix_refuted.
+
+(* outside the property's fault model: after a TRANSIENT failure (the storage recovers) the iterator has already consumed the failed posting's number and delivers the following documents with shifted data; recorded as an observation, see DESIGN.md section 7 *)
+Theorem itf_transient_wrong_posting :
+    itf_run (fails_only_at 0) {| if_it := Faults_Proofs.w_it; if_k := 0 |} [INext; INext] =
+    [OErr; OOk (Some (1, (2, (7, [([102], (1, (0, 3))); ([102], (4, (10, 13)))]))))] /\
+    nth 1
+    (Iterator_Proofs.spec_out true true
+    (map (Iterator_Proofs.resolve_posting Faults_Proofs.w_fields) Faults_Proofs.w_ps) [
+    INext; INext]) None = Some (1, (1, (9, [([102], (2, (5, 8)))]))) /\
+    itf_run (fails_only_at 1) {| if_it := Faults_Proofs.w_it; if_k := 0 |} [INext; INext] =
+    [OErr; OOk (Some (1, (2, (7, [([102], (1, (0, 3))); ([102], (4, (10, 13)))]))))].
+Proof. exact @Faults_Proofs.itf_transient_wrong_posting. Qed.
+Print Assumptions itf_transient_wrong_posting.
